@@ -197,13 +197,20 @@ func rtMemoSemantics(a *aggregator, v *rtView) {
 		{{5, 7, 0}, {5, 8, 0}, {5, 9, 0}, {6, 7, 0}},
 	}
 	prefixes := [][]step{nil, {{0, 6, 0}}, {{1, 6, 0}, {1, 2, 0}}}
-	run := func(p0 int64, pre []step, b body, garbage []step, matched bool, replay bool) (st string, ret Value) {
+	run := func(p0 int64, pre []step, b body, garbage []step, matched bool, replay bool, pregarbage bool) (st string, ret Value) {
 		ie, err := newInitEnv(v.in, text, false)
 		if err != nil {
 			panic(undecided{err.Error()})
 		}
 		ie.runSteps(pre)
 		t0 := ie.int("tokenIndex")
+		if pregarbage {
+			// an earlier, longer branch from the same point wrote tokens and failed:
+			// the token buffer holds a stale tail beyond tokenIndex
+			ie.set("position", p0)
+			ie.runSteps([]step{{p0 + 1, 7, p0}, {p0 + 2, 8, p0}, {p0 + 3, 9, p0}, {p0 + 3, 7, p0 + 1}})
+			ie.set("tokenIndex", t0)
+		}
 		ie.set("position", p0)
 		// first run of the rule
 		ie.runSteps(b.steps(p0))
@@ -256,7 +263,8 @@ func rtMemoSemantics(a *aggregator, v *rtView) {
 			}
 			for _, b := range bodies {
 				for gi, g := range garbages {
-					for _, matched := range []bool{true, false} {
+					for mi, matched := range []bool{true, false, true} {
+						pregarbage := mi == 2
 						if und != "" {
 							break
 						}
@@ -275,11 +283,11 @@ func rtMemoSemantics(a *aggregator, v *rtView) {
 									}
 								}
 							}()
-							sReplay, rReplay := run(p0, pre, b, g, matched, true)
-							sRerun, rRerun := run(p0, pre, b, g, matched, false)
+							sReplay, rReplay := run(p0, pre, b, g, matched, true, pregarbage)
+							sRerun, rRerun := run(p0, pre, b, g, matched, false, pregarbage)
 							n++
 							if sReplay != sRerun || rReplay != rRerun {
-								bad = append(bad, fmt.Sprintf("rule at offset %d (%s, matched=%v) after %d earlier token(s), other branch #%d in between: a memo hit returns %v leaving {%s}; re-running the rule returns %v leaving {%s}", p0, b.name, matched, len(pre), gi, rReplay, sReplay, rRerun, sRerun))
+								bad = append(bad, fmt.Sprintf("rule at offset %d (%s, matched=%v) after %d earlier token(s), other branch #%d in between: a memo hit returns %v leaving {%s}; re-running the rule returns %v leaving {%s}%s", p0, b.name, matched, len(pre), gi, rReplay, sReplay, rRerun, sRerun, map[bool]string{true: " (an earlier longer branch had left stale tokens beyond tokenIndex)", false: ""}[pregarbage]))
 							}
 						}()
 					}
@@ -297,7 +305,7 @@ func rtMemoSemantics(a *aggregator, v *rtView) {
 		bad = append(bad[:3], fmt.Sprintf("… %d more", len(bad)-3))
 	}
 	a.Decide(len(bad) == 0 && n >= 100, "R-memo-semantics", construct, cfg, pos,
-		fmt.Sprintf("%d scenarios (rule start 0..2, 0–2 earlier tokens, 5 rule bodies incl. empty matches and inner tokens reaching the end first, 4 intervening branches that overwrite and extend the token buffer, success and failure): position, tokenIndex, the live token prefix and the furthest token after a memo hit equal those after re-running the rule", n), strings.Join(bad, "; "))
+		fmt.Sprintf("%d scenarios (rule start 0..2, 0–2 earlier tokens, 5 rule bodies incl. empty matches and inner tokens reaching the end first, 4 intervening branches that overwrite and extend the token buffer, success and failure, with and without a stale tail left by an earlier longer branch): position, tokenIndex, the live token prefix and the furthest token after a memo hit equal those after re-running the rule", n), strings.Join(bad, "; "))
 }
 
 // fullState: every closure variable of Init that carries parse state, plus the
